@@ -326,7 +326,12 @@ class StructuredGrid(Grid):
 
     def getCellTop(self, indices) -> np.ndarray:
         """Get the mesh top (upper right) of this mesh cell in cm."""
-        indices = np.array(indices) + 1
+        indices = np.array(indices)
+        for index, bounds in zip(indices, self._bounds):
+            if bounds is not None and index < 0:
+                # the shift below would carry index -1 past the wrap-around guard of the bounds look-up
+                raise IndexError("Bounds-defined indices may not be negative.")
+        indices = indices + 1
         return self._evaluateMesh(
             indices, self._meshBaseBySteps, self._meshBaseByBounds
         )
